@@ -58,6 +58,13 @@ theorem balancer_callbacks_hold_lock : balancerCallbacksHoldLock = true := by de
     was based on must still be the channel's): in the model, decision and refresh are one atomic step -/
 theorem detector_decision_revalidated : detectorRefreshesUnvalidated = 0 := by decide
 
+/-- C07 (F33): the detector's test "the call started after the last response" and the increment of the
+    deadline-exceeded counter are one critical section of the channel's mutex, and every other write of
+    the counter (the reset by a response, by the swap) holds that mutex too: a completion is one atomic
+    step of the pool model with respect to the other completions on the channel -/
+theorem detector_counts_atomically :
+    deCallsTestAndCountRegions = 1 ∧ deCallsWritesOutsideLock = 0 ∧ deCallsAtomicAccesses = 0 ∧ 3 ≤ deCallsWrites := by decide
+
 theorem balancer_name : balancerName = "grpc_gcp" := by decide
 
 end GcpVerif.Ties
